@@ -434,15 +434,12 @@ func runKill(run *vf.Run, raw json.RawMessage, dir string) *vf.Result {
 		res.HarnessErr = err.Error()
 		return res
 	}
-	ptsup := filepath.Join(vf.Root, "bin", "ptsup")
-	if _, err := os.Stat(ptsup); err != nil {
-		res.HarnessErr = "ptrace supervisor missing (" + ptsup + "): run /verif/setup.sh"
+	ptsup := findPtsup()
+	if ptsup == "" {
+		res.HarnessErr = "ptrace supervisor missing (" + filepath.Join(vf.Root, "bin", "ptsup") + "): run /verif/setup.sh"
 		return res
 	}
-	t0 := time.Now()
 	sc, err := buildScenario(s.Seed, s.Scn, dir, s.Stages, res)
-	res.Count("dbg_ms_build", int(time.Since(t0).Milliseconds()))
-	t0 = time.Now()
 	if err != nil {
 		res.HarnessErr = "scenario: " + err.Error()
 		return res
@@ -461,9 +458,6 @@ func runKill(run *vf.Run, raw json.RawMessage, dir string) *vf.Result {
 		return res
 	}
 	T := cr.total
-	res.Count("dbg_ms_countrun", int(time.Since(t0).Milliseconds()))
-	t0 = time.Now()
-	defer func() { res.Count("dbg_ms_killruns", int(time.Since(t0).Milliseconds())) }()
 	res.Count("count_runs", 1)
 	res.Count("fs_mutating_syscalls_in_count_runs", T)
 	// choose kill points
@@ -495,7 +489,6 @@ func runKill(run *vf.Run, raw json.RawMessage, dir string) *vf.Result {
 	points = dedup(points)
 	completed := 0
 	for _, n := range points {
-		before := len(res.Violations)
 		r, err := c.run(fmt.Sprintf("kill@%d", n), false, []int{n}, []int{rng.Intn(3)})
 		if err != nil {
 			res.HarnessErr = err.Error()
@@ -509,7 +502,6 @@ func runKill(run *vf.Run, raw json.RawMessage, dir string) *vf.Result {
 			completed++
 			res.Count("kill_runs_converged", 1)
 		}
-		_ = before
 		if unexpectedViolations(res) >= 3 {
 			break
 		}
@@ -539,6 +531,18 @@ func runKill(run *vf.Run, raw json.RawMessage, dir string) *vf.Result {
 	res.Nontrivial = res.Counters["kill_runs_killed"] > 0 && (res.Counters["primary_advanced_while_follower_down"] > 0 || completed > 0)
 	res.Sample = map[string]any{"kind": "kill", "cfg": sc.Cfg, "stages": stageSummary(sc), "fs_mutating_syscalls": T, "kill_points": points, "killed_at": kc}
 	return res
+}
+
+func findPtsup() string {
+	for _, p := range []string{os.Getenv("VERIF_PTSUP"), filepath.Join(vf.Root, "bin", "ptsup"), "/verif/bin/ptsup"} {
+		if p == "" {
+			continue
+		}
+		if st, err := os.Stat(p); err == nil && !st.IsDir() {
+			return p
+		}
+	}
+	return ""
 }
 
 func stageSummary(sc *scenario) []string {
